@@ -3,7 +3,7 @@
 # Confirms, in a fresh scratch worktree of /repo HEAD: patch applies, builds, whole suite passes with
 # it (same failures as baseline only), demo fails with it and passes without it. Writes
 # /tmp/seedout/<tag>/verified.txt and removes the worktree.
-tag=$1; pkg=$2; re=$3
+tag=$1; pkg=$2; re=$3; extra=$4
 export GOFLAGS=-mod=mod GOPROXY=off GOSUMDB=off GOTOOLCHAIN=local
 out=/tmp/seedout/$tag; wt=/tmp/vs-$tag
 log=$out/verified.txt; : > $log
@@ -11,13 +11,13 @@ git -C /repo worktree add --detach $wt HEAD >/dev/null 2>&1 || { echo "worktree 
 cd $wt
 cp $out/demo/*_test.go $wt/$pkg/ 2>/dev/null
 echo "== demo WITHOUT change" >> $log
-go test -vet=off -count=1 -run "$re" ./$pkg/ >> $log 2>&1; echo "rc=$?" >> $log
+go test $extra -vet=off -count=1 -run "$re" ./$pkg/ >> $log 2>&1; echo "rc=$?" >> $log
 git apply $out/patch.diff >> $log 2>&1 || echo "PATCH-APPLY-FAILED" >> $log
 echo "== build WITH change" >> $log
 go build ./... >> $log 2>&1; echo "rc=$?" >> $log
 echo "== demo WITH change" >> $log
-go test -vet=off -count=1 -run "$re" ./$pkg/ 2>&1 | tail -15 >> $log; 
-rm -f $wt/$pkg/*c[0-9][0-9]*demo*_test.go $wt/$pkg/*_demo_test.go $wt/$pkg/*_demo_unix_test.go
+go test $extra -vet=off -count=1 -run "$re" ./$pkg/ 2>&1 | tail -15 >> $log; 
+rm -f $wt/$pkg/*c[0-9][0-9]*demo*_test.go $wt/$pkg/*_demo_test.go $wt/$pkg/*_demo_unix_test.go $wt/$pkg/*_verif_test.go $wt/$pkg/c01b_*_test.go
 echo "== suite WITH change (failures only)" >> $log
 go test -vet=off -count=1 -timeout 25m ./... 2>&1 | grep -E "^(FAIL|---|ok|panic)" | grep -v "^ok" >> $log
 echo "== done" >> $log
